@@ -352,6 +352,7 @@ pub fn execute(case: &Value, scratch: &str) -> Outcome {
     let light = case["light"].as_bool().unwrap_or(false);
     match case["source"]["kind"].as_str().unwrap_or("generated") {
         "generated" => {
+            c06::count_ops(case, &mut out);
             let book = match guarded(|| c06::build(case)) {
                 Ok(b) => b,
                 Err(_) => {
@@ -400,6 +401,10 @@ pub fn execute(case: &Value, scratch: &str) -> Outcome {
                 book.remove_macros_code();
                 reference.remove_macros_code();
             }
+            if case["add_macros"].as_bool().unwrap_or(false) {
+                // a macro payload given to a workbook that was loaded without one
+                book.set_macros_code(vec![0xD0u8, 0xCF, 0x11, 0xE0, 0xA1, 0xB1, 0x1A, 0xE1, 9, 8, 7]);
+            }
             let what = if lazy { "corpus-lazy" } else { "corpus" };
             match guarded(|| world::save_mem(&book, light)) {
                 Ok(Ok(out_bytes)) => {
@@ -431,7 +436,7 @@ pub fn cases(run_seed: u64, tier: &str, _scratch: &str) -> Vec<Value> {
         if tier != "thorough" {
             for _ in 0..20 {
                 let len = std::fs::metadata(format!("{}/{}", c11::corpus_dir(), f)).map(|m| m.len()).unwrap_or(0);
-                if len <= 120_000 {
+                if len <= 300_000 {
                     break;
                 }
                 f = files[sw.usize(files.len())].clone();
@@ -445,6 +450,7 @@ pub fn cases(run_seed: u64, tier: &str, _scratch: &str) -> Vec<Value> {
                 c["lazy"] = json!(lazy);
                 c["materialise"] = json!((0..sw.usize(4)).map(|_| sw.below(8)).collect::<Vec<_>>());
                 c["drop_macros"] = json!(f.ends_with(".xlsm") && sw.chance(1, 2));
+                c["add_macros"] = json!(!f.ends_with(".xlsm") && sw.chance(1, 3));
                 c["hash_seed"] = hex64(hs.next_u64());
                 out.push(c);
             }
